@@ -152,6 +152,16 @@ def run(ctx, replay=None):
     for _ in range(ctx.pick(4000, 100000)):
         toks = rand_tokens(rnd)
         jobs.append(('tokens', toks, tokens_text(toks, rnd)))
+    # a name glued to a number is two operands without an operator, whatever surrounds them ("1e5", "2 * 3e2 + 1", "ff(1e3, x)")
+    T = lambda t, x: {'t': t, 'text': x}      # noqa: E731
+    for n in ('1', '2.5', '10', '3'):
+        for nm in ('e5', 'e2', 'E3', 'e', 'x'):
+            core = [T('num', n), T('var', nm)]
+            for pre, post in (([], []), ([T('num', '2'), T('op', '*')], [T('op', '+'), T('num', '1')]), ([T('var', 'ff'), T('lp', '(')], [T('comma', ','), T('var', 'xx'), T('rp', ')')]),
+                              ([T('lp', '(')], [T('rp', ')')]), ([T('minus', '-')], [])):
+                toks = pre + core + post
+                text = ' '.join(t['text'] for t in pre) + (' ' if pre else '') + n + nm + (' ' if post else '') + ' '.join(t['text'] for t in post)
+                jobs.append(('tokens', toks, text))
     cases = F.pmap(parse_case, jobs)
     for cs in F.pmap(pair_cases, [(ctx.seed * 11 + i,) for i in range(ctx.pick(400, 8000))]):
         cases += cs
